@@ -89,7 +89,10 @@ func (version Version) MarshalControl() (string, error) {
 
 func (v Version) StringWithoutEpoch() string {
 	result := v.Version
-	if len(v.Revision) > 0 {
+	if len(v.Revision) > 0 || strings.Contains(v.Version, "-") {
+		/* An upstream version holding a hyphen is only told apart from its
+		 * revision by the last hyphen, so that one has to be written even
+		 * when the revision is empty. */
 		result += "-" + v.Revision
 	}
 	return result
